@@ -460,6 +460,32 @@ class Explorer:
         return choice
 
 
+class SymBytes:
+    """bytes of an array of symbolic floats, usable as a dict key: equal iff element-wise the same value (NaN equals NaN:
+    the repository only produces the canonical NaN); equality is decided by forking (Explorer mode)"""
+    _pysym_model = True
+
+    def __init__(self, it, vals):
+        self.it, self.vals = it, [Num.lift(v) if not isinstance(v, (SBool, SInt)) else v for v in vals]
+
+    def __hash__(self):
+        return 0
+
+    def __eq__(self, other):
+        if not isinstance(other, SymBytes) or len(other.vals) != len(self.vals):
+            return False
+        conds = []
+        for a, b in zip(self.vals, other.vals):
+            if isinstance(a, Num) and isinstance(b, Num):
+                conds.append(Or(And(wrapb(a.nan), wrapb(b.nan)), a == b))
+            else:
+                conds.append(a == b)
+        c = self.it.truth(And(*conds))
+        if not isinstance(c, bool):
+            raise NeedConcrete(c)
+        return c
+
+
 class Interp:
     def __init__(self, repo=None):
         import spatialpandas
@@ -477,6 +503,7 @@ class Interp:
         self.encoded = {}            # qualname -> dict(file, line, sha1)
         self.stats = {'stmts': 0, 'calls': 0, 'native_calls': 0, 'lifts': 0}
         self.native_symbolic_ok = {}
+        self.max_sym_while = 80
         self.max_while = 100000
         self.builtins = {
             'range': self.b_range, 'prange': self.b_range, 'len': self.b_len, 'min': self.b_min, 'max': self.b_max,
@@ -1030,8 +1057,23 @@ class Interp:
                     break
                 c = self.truth(self.expr(s.test, fr, gi))
                 if not isinstance(c, bool):
-                    raise NeedConcrete(c)
-                if not c:
+                    # merge mode, symbolic loop condition: unroll under an accumulating guard; the loop is left once the
+                    # condition is unsatisfiable together with the guard (decided by the solver: the unwinding assertion)
+                    if s.orelse:
+                        raise Unsupported("while/else with a symbolic condition")
+                    g = And(g, c)
+                    chk = z3.Solver()
+                    chk.set('timeout', 20000)
+                    chk.add(tz(self.eff(fr, g)))
+                    r = str(chk.check())
+                    self.stats['while_unwinding_queries'] = self.stats.get('while_unwinding_queries', 0) + 1
+                    if r == 'unsat':
+                        break
+                    if r != 'sat':
+                        raise Unsupported("symbolic while: unwinding query undecided")
+                    if n >= self.max_sym_while:
+                        raise Unsupported(f"symbolic while: still satisfiable after {n} unrollings")
+                elif not c:
                     break
                 self.block(s.body, fr, g)
                 n += 1
@@ -1497,7 +1539,7 @@ class Interp:
             r = getattr(base, name)(*args, **kw)
             return it.lift(r) if isinstance(r, np.ndarray) else r
         if name == 'tobytes' and base.dtype == object:
-            raise Unsupported("tobytes of symbolic array")
+            return SymBytes(it, list(base.ravel()))
         if name == 'sum':
             if base.dtype != object:
                 return base.sum(*args, **kw)
